@@ -30,3 +30,4 @@ import L21.Props.C17Sorted
 #print axioms L21.RawProto.c14_exported_layout_canon
 #print axioms L21.RawProto.c14_library_export_fixed_point
 #print axioms L21.RawProto.c14_abstract_groups_canon
+#print axioms L21.RawProto.c14_norm_idempotent
